@@ -1,6 +1,7 @@
 import GB.C04.Refine
 import GB.C04.WF
 import GB.C04.B64
+import GB.Generated.Facts
 /-
   C04 — transcoded requests populate the gRPC message per the http.proto binding rules.
 
@@ -707,4 +708,83 @@ example : (List.range 256).filter (fun n => (b64val false (UInt8.ofNat n)).isSom
       (List.range 256).filter (fun n => (65 ≤ n ∧ n ≤ 90) ∨ (97 ≤ n ∧ n ≤ 122) ∨ (48 ≤ n ∧ n ≤ 57) ∨ n = 43 ∨ n = 47)
     ∧ (List.range 256).filter (fun n => (b64val true (UInt8.ofNat n)).isSome) =
       (List.range 256).filter (fun n => (65 ≤ n ∧ n ≤ 90) ∨ (97 ≤ n ∧ n ≤ 122) ∨ (48 ≤ n ∧ n ≤ 57) ∨ n = 45 ∨ n = 95) := by
+  decide
+
+/-! ## streams through the forwarder: the bindings apply to EVERY message, and to each one afresh -/
+
+/-- The pump of a transcoded client stream (grpcadapter forwardIncomingToOutgoing: a FRESH `Input.New()` per
+    iteration, `Recv` = transcode onto it, `Send`) sends the target, for every client message until the first
+    rejected one, exactly `transcode(binding, path, query, body_i)` — message i does not depend on any message j < i. -/
+theorem C04_stream_each_message (sch : Schema) (orc : Oracle) (root : MsgDesc) (bd : Binding) (rq : Request) (decs : List Dec) :
+    pump sch orc root bd rq decs = okPrefix (decs.map (fun d => transcode sch orc root bd d rq)) :=
+  pump_eq sch orc root bd rq decs
+
+/-- … in particular the i-th message sent, if any, is the unary transcoding of the i-th body alone -/
+theorem C04_stream_each_message_get (sch : Schema) (orc : Oracle) (root : MsgDesc) (bd : Binding) (rq : Request) :
+    ∀ (decs : List Dec) (i : Nat) (m : Msg), (pump sch orc root bd rq decs)[i]? = some m →
+      ∃ d, decs[i]? = some d ∧ transcode sch orc root bd d rq = .ok m := by
+  intro decs
+  induction decs with
+  | nil => intro i m h; simp [pump] at h
+  | cons d rest ih =>
+    intro i m h
+    simp only [pump, transcodeOnto_nil] at h
+    cases ht : transcode sch orc root bd d rq with
+    | error e => simp [ht] at h
+    | ok m0 =>
+      simp only [ht] at h
+      cases i with
+      | zero => simp at h; subst h; exact ⟨d, by simp, ht⟩
+      | succ j =>
+        simp only [List.getElem?_cons_succ] at h
+        obtain ⟨d', hd', ht'⟩ := ih j m h
+        exact ⟨d', by simpa using hd', ht'⟩
+
+/-- Negative witness for the variant that allocates ONE request message before the loop (seeded change C04-m6):
+    message T { repeated int32 t = 1; }, no body, query `?t=1`, two client messages. The per-iteration pump sends
+    {t: [1]} twice; the reuse variant sends {t: [1]} and then {t: [1, 1]} — the binding accumulates. -/
+theorem C04_stream_reused_message_fails :
+    pump exSchemaT exNoOracle exT ⟨[]⟩ ⟨[], [([116], [[49]])]⟩ [.none, .none]
+      = [[([[116]], .list [.int 1])], [([[116]], .list [.int 1])]]
+    ∧ pumpReuse exSchemaT exNoOracle exT ⟨[]⟩ ⟨[], [([116], [[49]])]⟩ [] [.none, .none]
+      = [[([[116]], .list [.int 1])], [([[116]], .list [.int 1, .int 1])]] := by
+  decide
+
+/-! ## Any payloads: resolved against the target's own files only -/
+
+/-- Whether the type URL of a `google.protobuf.Any` in a request body resolves — hence whether the body is
+    decoded or rejected with InvalidArgument — is a function of the target's file set only: the message named
+    after the last '/' must be defined by one of the target's own files. (`anyResolves` has no other argument;
+    `./check` compares it with `Target.TypeResolver.FindMessageByURL` of a target built by the real
+    reflection.parseFileDescriptors, op `anyres`.) -/
+theorem C04_any_resolution_target_only (targetMsgs : List Name) (url : Bytes) :
+    anyResolves targetMsgs url = true ↔ urlTypeName url ∈ targetMsgs := by
+  simp [anyResolves]
+
+/-- … and two bridges that differ only in what is linked into the binary agree; the fallback variant does not -/
+theorem C04_any_resolution_fallback_fails :
+    anyResolvesFallback [[77]] [] [120, 47, 71] = false ∧ anyResolvesFallback [[77]] [[71]] [120, 47, 71] = true
+    ∧ anyResolves [[77]] [120, 47, 71] = false ∧ anyResolves [[77]] [120, 47, 77] = true ∧ anyResolves [[77]] [77] = true := by
+  decide
+
+/-! ## regenerated facts about the resolver glue (go/ast over reflection/, bridgedesc/, transcoding/, internal/gwquery/) -/
+
+/-- reflection.parseFileDescriptors: files := protodesc.NewFiles(fds); types := dynamicpb.NewTypes(files);
+    bridgedesc.ParseTarget(name, files, types, svcNames) — no wrapper, nothing else assigned to them -/
+theorem C04_facts_resolver_defs :
+    GB.Generated.c04ResolverDefs = [("files, err :=", "protodesc.NewFiles(fds)"), ("types :=", "dynamicpb.NewTypes(files)")]
+    ∧ GB.Generated.c04ParseTargetArgs = ["name", "files", "types", "svcNames"]
+    ∧ GB.Generated.c04ParseTypeDecls = ["parseResults"] := by
+  decide
+
+/-- bridgedesc.ParseTarget stores exactly its `files` / `types` parameters in Target.FileResolver / TypeResolver,
+    and nothing in reflection/ or bridgedesc/ assigns those fields afterwards -/
+theorem C04_facts_target_literal :
+    GB.Generated.c04TargetLiteral = [("params", "name, files, types, svcNames"), ("FileResolver", "files"), ("TypeResolver", "types")]
+    ∧ GB.Generated.c04ResolverAssignments = [] := by
+  decide
+
+/-- no production file of reflection/, bridgedesc/, transcoding/, internal/gwquery/ mentions
+    protoregistry.GlobalTypes or protoregistry.GlobalFiles -/
+theorem C04_facts_no_global_registry : GB.Generated.c04GlobalRegistryRefs = [] := by
   decide
